@@ -46,6 +46,13 @@ def one(rng, k):
     else:
         fields = [dict(size=rng.choice([1, 2]), name=rng.choice(['hl_', 'f', 'cnt_']) + '%d_%s' % (j, rng.choice(['crc', 'x', 'failures'])))
                   for j in range(rng.randint(0, 12))]
+        # a table may declare the same entry again (reserved / filler fields): same name, same or another width
+        for _ in range(rng.choice([0, 0, 1, 2, 3])):
+            if fields:
+                twin = dict(rng.choice(fields))
+                if rng.random() < .3:
+                    twin['size'] = 3 - twin['size']
+                fields.insert(rng.randrange(len(fields) + 1), twin)
         d = seams.scratch_dir('c16')
         path = os.path.join(d, 'synthetic_hlog.h')
         with open(path, 'w') as f:
